@@ -270,6 +270,12 @@ impl SvgElement {
 //@ - opt_sv(r) == map_get(old(self).attrs@, key@)
 //@ - final(self).attrs@ == old(self).attrs@.remove(key@) && final(self).name == old(self).name
 //@end
+//@item src/element.rs :: impl SvgElement :: fn is_size_attr
+//@ strlit "text" "point" "width" "height" "circle" "ellipse" "r" "rx" "ry"
+//@ ensures
+//@ - r == (!(self.name@ == "text"@ || self.name@ == "point"@) && (name@ == "width"@ || name@ == "height"@
+//@        || ((self.name@ == "circle"@ || self.name@ == "ellipse"@) && (name@ == "r"@ || name@ == "rx"@ || name@ == "ry"@))))     @@C09.size_attr.every_radius_spelling @@C11.size_attr.every_radius_spelling
+//@end
 //@item src/element.rs :: impl SvgElement :: fn set_default_attr
 //@ ensures
 //@ - final(self).attrs@ == (if old(self).attrs@.dom().contains(key@) { old(self).attrs@ } else { old(self).attrs@.insert(key@, value@) }) && final(self).name == old(self).name
